@@ -241,6 +241,39 @@ def InG (nf : Nat) : IExpr → Prop
   | paren e => InG nf e
   | join op a b => a.isAtom = true ∧ InG nf a ∧ InG nf b ∧ b.SameOp op
 
+def SameOp.dec (op : Op) : (e : IExpr) → Decidable (SameOp op e)
+  | join op' _ _ => inferInstanceAs (Decidable (op' = op))
+  | face _ => inferInstanceAs (Decidable True)
+  | nface _ => inferInstanceAs (Decidable True)
+  | tru => inferInstanceAs (Decidable True)
+  | paren _ => inferInstanceAs (Decidable True)
+
+instance (op : Op) (e : IExpr) : Decidable (SameOp op e) := SameOp.dec op e
+
+def Flat.dec (nf : Nat) : (e : IExpr) → Decidable (Flat nf e)
+  | face s => inferInstanceAs (Decidable (s < lbegin ∧ s < nf))
+  | nface s => inferInstanceAs (Decidable (s < lbegin ∧ s < nf))
+  | tru => inferInstanceAs (Decidable True)
+  | paren e => Flat.dec nf e
+  | join _ a b =>
+    let _ := Flat.dec nf a
+    let _ := Flat.dec nf b
+    inferInstanceAs (Decidable (a.isAtom = true ∧ Flat nf a ∧ Flat nf b))
+
+instance (nf : Nat) (e : IExpr) : Decidable (Flat nf e) := Flat.dec nf e
+
+def InG.dec (nf : Nat) : (e : IExpr) → Decidable (InG nf e)
+  | face s => inferInstanceAs (Decidable (s < lbegin ∧ s < nf))
+  | nface s => inferInstanceAs (Decidable (s < lbegin ∧ s < nf))
+  | tru => inferInstanceAs (Decidable True)
+  | paren e => InG.dec nf e
+  | join op a b =>
+    let _ := InG.dec nf a
+    let _ := InG.dec nf b
+    inferInstanceAs (Decidable (a.isAtom = true ∧ InG nf a ∧ InG nf b ∧ b.SameOp op))
+
+instance (nf : Nat) (e : IExpr) : Decidable (InG nf e) := InG.dec nf e
+
 theorem InG.flat {nf : Nat} {e : IExpr} (h : InG nf e) : Flat nf e := by
   induction e with
   | face _ => exact h
@@ -676,8 +709,7 @@ theorem infixWellFormed_iff (l : List Nat) (nf : Nat) :
     rw [List.append_nil] at this
     rw [this]
 
-/-- on input accepted by the check the evaluator as written computes the value of the (unique)
-    parse -/
+/-- on input accepted by the check the evaluator as written computes the value of a parse in G -/
 theorem infixEval_of_wellFormed {l : List Nat} {nf : Nat} (h : infixWellFormed l nf = true) :
     ∃ e : IExpr, InG nf e ∧ encode e = l ∧ ∀ vals, infixEval l vals = value vals e := by
   rcases (infixWellFormed_iff l nf).1 h with ⟨e, he, rfl⟩
@@ -810,11 +842,95 @@ theorem infixOf_correct {t : Tree} {σ v : Nat → Bool} (s : Struct t) (hm : Mo
   rcases infixOf_expr s hm nf hsurf f n l hn h with ⟨e, _, he, rfl, hval⟩
   exact ⟨(infixEval_correct he σ).trans hval, (infixWellFormed_iff _ nf).2 ⟨e, he, rfl⟩⟩
 
+/-- the same with the bare hypothesis "surface ids are not operator tokens" -/
+theorem infixOf_eval {t : Tree} {σ v : Nat → Bool} (s : Struct t) (hm : Models t σ v)
+    (hsurf : ∀ i k, i < t.size → t.get i = .surface k → k < lbegin)
+    {f n : Nat} (hn : n < t.size) {l : List Nat} (h : infixOf t f n = some l) :
+    infixEval l σ = v n :=
+  (infixOf_correct s hm (nf := lbegin) (fun i k hi hg => ⟨hsurf i k hi hg, hsurf i k hi hg⟩)
+    hn h).1
+
 /-- on a tree satisfying the invariant the value is `denote` -/
 theorem infixOf_denote {t : Tree} (inv : TreeInv t) {nf : Nat}
     (hsurf : ∀ i k, i < t.size → t.get i = .surface k → k < lbegin ∧ k < nf)
     {f n : Nat} (hn : n < t.size) {l : List Nat} (h : infixOf t f n = some l) (σ : Nat → Bool) :
     infixEval l σ = denote t σ n ∧ infixWellFormed l nf = true :=
   infixOf_correct inv.struct (denote_models inv.sorted σ) hsurf hn h
+
+/-! ### non-vacuity -/
+
+/-- senses of `InfixEvaluator.test.cc` (`true` = `Sense::outside`): first and second vector -/
+def testSenses1 : Nat → Bool :=
+  fun i => [false, true, false, true, false, true, false, false, true].getD i false
+def testSenses2 : Nat → Bool :=
+  fun i => [false, true, false, true, true, true, true, false, true, true].getD i false
+
+/-- `alpha_logic`, `beta_logic`, `delta_logic` of `InfixEvaluator.test.cc` -/
+def testAlpha : List Nat := [lnot, 1, lor, 2, lor, lnot, 3, lor, 4, lor, lnot, 8]
+def testBeta : List Nat :=
+  [lopen, lopen, lopen, lopen, 5, land, lnot, 1, lclose, land, 6, lclose, land, lnot, 7, lclose,
+    land, 8, lclose]
+def testDelta : List Nat :=
+  [lopen, lopen, lopen, lopen, lnot, 1, lor, 2, lor, lnot, 3, lor, 4, lclose, land, lnot, 5, lor,
+    1, lor, lnot, 6, lor, 7, lclose, land, 8, lclose, land, lnot, 0, lclose]
+
+-- the two expressions quoted in the task: accepted, evaluated as written, for all senses of the
+-- faces involved the value is the expected one
+example : infixWellFormed [lopen, lopen, 5, land, lnot, 1, lclose, land, 6, lclose] 7 = true := by
+  decide
+example : ∀ a b c : Bool,
+    infixEval [lopen, lopen, 5, land, lnot, 1, lclose, land, 6, lclose]
+      (fun s => if s = 5 then a else if s = 1 then b else c) = ((a && !b) && c) := by decide
+example : infixWellFormed [lnot, 1, lor, 2, lor, lnot, 3] 4 = true := by decide
+example : ∀ a b c : Bool,
+    infixEval [lnot, 1, lor, 2, lor, lnot, 3]
+      (fun s => if s = 1 then a else if s = 2 then b else c) = (!a || b || !c) := by decide
+
+-- the unit test `InfixEvaluatorTest.evaluate` (same expected values as `EXPECT_FALSE/TRUE`)
+example : infixEval testAlpha testSenses1 = false ∧ infixWellFormed testAlpha 9 = true := by decide
+example : infixEval testBeta testSenses1 = false ∧ infixWellFormed testBeta 9 = true := by decide
+example : infixEval [8] testSenses1 = true ∧ infixEval [ltrue] testSenses1 = true := by decide
+/-- `delta_logic` mixes `&` and `|` inside one parenthesis level: it is NOT in grammar G (the
+    check rejects it) although the test expectation holds (`infixEval_correct_flat` covers it:
+    right-nested reading) -/
+example : infixEval testDelta testSenses2 = true ∧ infixWellFormed testDelta 10 = false := by
+  decide
+
+-- malformed inputs are rejected: face out of range, unbalanced, dangling operator, `lnot (`,
+-- empty, `lnot ltrue`
+example : infixWellFormed [3] 3 = false ∧ infixWellFormed [lopen, 0] 1 = false
+    ∧ infixWellFormed [0, lclose] 1 = false ∧ infixWellFormed [0, lor] 1 = false
+    ∧ infixWellFormed [lnot, lopen, 0, lclose] 1 = false ∧ infixWellFormed [] 1 = false
+    ∧ infixWellFormed [lnot, ltrue] 1 = false ∧ infixWellFormed [lopen, lclose] 1 = false := by
+  decide
+
+/-- LIMITATION (outside G): mixed operators at one level are evaluated left to right with
+    short-circuit, i.e. as `a & (b | c)`; with the standard precedence reading `(a & b) | c`
+    the value for `a = F, c = T` would be `true` -/
+example : infixEval [0, land, 1, lor, 2] (fun s => s = 2) = false
+    ∧ (((fun s => decide (s = 2)) 0 && (fun s => decide (s = 2)) 1) || (fun s => decide (s = 2)) 2)
+      = true
+    ∧ infixWellFormed [0, land, 1, lor, 2] 3 = false := by decide
+
+/-- the same through the theorem: the as-written value of a mixed chain is the right-nested one -/
+example (vals : Nat → Bool) :
+    infixEval [0, land, 1, lor, 2] vals = (vals 0 && (vals 1 || vals 2)) :=
+  infixEval_correct_flat (nf := 3) (e := join .and (face 0) (join .or (face 1) (face 2)))
+    (by decide) vals
+
+-- `infixOf` on trees built with `insert`
+example : infixOf ex1 (ex1.size + 1) 4 = some [lopen, 0, land, 1, lclose] := by decide
+example : infixOf ex2 (ex2.size + 1) 7
+    = some [lopen, lopen, 0, land, 1, lclose, land, lopen, 0, lor, lnot, 1, lclose, lclose] := by
+  decide
+/-- a negated join has no infix encoding -/
+example : infixOf ex3 (ex3.size + 1) 5 = none := by decide
+
+/-- `infixEval_correct` instantiated: `( (5 & ~1) & 6 )` for every sense assignment -/
+example (vals : Nat → Bool) :
+    infixEval [lopen, lopen, 5, land, lnot, 1, lclose, land, 6, lclose] vals
+      = ((vals 5 && !vals 1) && vals 6) :=
+  infixEval_correct (nf := 7)
+    (e := paren (join .and (paren (join .and (face 5) (nface 1))) (face 6))) (by decide) vals
 
 end CelerVerif.Csg
